@@ -345,7 +345,7 @@ func gnOddValue(rng *rand.Rand) *gpb.TypedValue {
 	case 6:
 		return &gpb.TypedValue{Value: &gpb.TypedValue_FloatVal{FloatVal: pick(rng, []float32{0, 1.5, -2.25, 3.14, 0.1})}}
 	case 7:
-		return &gpb.TypedValue{Value: &gpb.TypedValue_DecimalVal{DecimalVal: &gpb.Decimal64{Digits: pick(rng, []int64{0, 314, -225, 1, 123456789, 5}), Precision: uint32(rng.Intn(4))}}}
+		return &gpb.TypedValue{Value: &gpb.TypedValue_DecimalVal{DecimalVal: &gpb.Decimal64{Digits: pick(rng, []int64{0, 314, -225, 1, 123456789, 5}), Precision: pick(rng, []uint32{0, 1, 2, 3, 1, 2, 18, 19, 25})}}}
 	case 8:
 		return &gpb.TypedValue{Value: &gpb.TypedValue_LeaflistVal{LeaflistVal: &gpb.ScalarArray{}}}
 	case 9:
@@ -797,6 +797,9 @@ func gnNodeStream(rng *rand.Rand, n int, tier string, out string) (*Summary, err
 		g.maxList = 2
 		d := &gnDesc{rng: rng, g: g, pkg: p}
 		done := 0
+		if !replaying {
+			gnSharedBytesCases(p, tf, &id, sum)
+		}
 		for done < per {
 			index++
 			g.pField = 0.2 + 0.2*rng.Float64()
@@ -1139,4 +1142,70 @@ func gnNodeStream(rng *rand.Rand, n int, tier string, out string) (*Summary, err
 	}
 	sum.Extra = map[string]interface{}{"case_files": files}
 	return sum, nil
+}
+
+// gnSharedBytesCases: one bytes_val message is set on two binary leaves, then one of them is set
+// again to a shorter value: the other leaf must keep its bytes (the tree must not share storage
+// between leaves, whatever it shares with the caller's message).  Directed cases in front of the
+// random ones; each SetNode is a GSet case, and the C10 oracle ("every other leaf keeps its
+// value") is evaluated on the leaf map.
+func gnSharedBytesCases(p *reg.Pkg, tf *treeFile, id *int, sum *Summary) {
+	var sites []leafSite
+	rt := reflect.TypeOf(p.NewRoot()).Elem()
+	containerLeaves(rt, p.SchemaTree[rt.Name()], nil, &sites)
+	var bins []leafSite
+	for _, s := range sites {
+		if _, t := resolveType(s.entry); t != nil && t.Kind == yang.Ybinary && s.entry.IsLeaf() {
+			bins = append(bins, s)
+		}
+	}
+	if len(bins) < 2 {
+		return
+	}
+	mk := func(s leafSite) *gpb.Path {
+		pth := &gpb.Path{}
+		for _, n := range s.path {
+			pth.Elem = append(pth.Elem, &gpb.PathElem{Name: n})
+		}
+		return pth
+	}
+	root := p.NewRoot()
+	schema := gnRootEntry(p, root)
+	shared := &gpb.TypedValue{Value: &gpb.TypedValue_BytesVal{BytesVal: []byte{0xde, 0xad, 0xbe}}}
+	short := &gpb.TypedValue{Value: &gpb.TypedValue_BytesVal{BytesVal: []byte{1, 2}}}
+	steps := []struct {
+		path *gpb.Path
+		tv   *gpb.TypedValue
+	}{{mk(bins[0]), shared}, {mk(bins[1]), shared}, {mk(bins[0]), short}}
+	for i, st := range steps {
+		pre := treeTerm(root)
+		lmPre := leafMapOf(root)
+		tvt, ok := gnTvTerm(st.tv)
+		if !ok {
+			return
+		}
+		err, pan := gnSafeSet(schema, root, st.path, st.tv, &ytypes.InitMissingElements{})
+		post := treeTerm(root)
+		tf.cf.add(fmt.Sprintf("GSet %d %s %s %s %s %s (Some %s)", *id, gnSetOptsTerm(true, false, false, false), pre, gnPathTerm(st.path), tvt, gnResUnit(err, pan), post))
+		*id++
+		sum.count("ops", "set/shared-bytes")
+		sum.OracleRuns++
+		if err != nil || pan {
+			continue
+		}
+		lmPost := leafMapOf(root)
+		own := "/" + strings.Join(func() []string {
+			var ns []string
+			for _, e := range st.path.Elem {
+				ns = append(ns, e.Name)
+			}
+			return ns
+		}(), "/")
+		for _, k := range leafMapDiff(lmPre, lmPost, 8) {
+			if k != own {
+				sum.finding(Finding{Signature: "setnode/other-leaf-changed", What: "SetNode on " + own + " changed another leaf: " + k + ": " + lmPre[k] + " -> " + lmPost[k],
+					Input: map[string]interface{}{"pkg": p.Name, "scenario": "one bytes_val message set on two binary leaves, then one leaf set again", "step": i, "path": own}})
+			}
+		}
+	}
 }
